@@ -180,12 +180,14 @@ class Sample(object):
         min_rest, To = min(enumerate(self.rest_times), key=lambda x: x[1])
         # Find the activity at that time, and the decay rate
         data = [(Ia[min_rest], LN2/a.Thalf_hrs) for a, Ia in self.activity.items()]
+        # Products which have completely decayed do not contribute
+        data = [(Ia, La) for Ia, La in data if Ia > 0]
         # Build functions for total activity at time T - target and its derivative
         # This will be zero when activity is at target
         f = lambda t: sum(Ia*exp(-La*(t-To)) for Ia, La in data) - target
-        df = lambda t: sum(La*Ia*(To-1)*exp(-La*(t-To)) for Ia, La in data)
+        df = lambda t: -sum(La*Ia*exp(-La*(t-To)) for Ia, La in data)
         # Return target time, or 0 if target time is negative
-        if f(0) < target:
+        if f(0) <= 0:
             return 0
         # Need an initial guess near the answer otherwise find_root gets confused.
         # Small but significant activation with an extremely long half-life will
